@@ -294,7 +294,11 @@ func (p *PALS) Align(complement bool) (dp.Hits, error) {
 	p.notifyf("Identified %d filter hits", p.morass.Len())
 
 	p.notify("Merging")
-	merger := filter.NewMerger(p.index, working, p.FilterParams, p.MaxIGap, p.selfCompare)
+	// In a self comparison the merger discards hits at or below the main
+	// diagonal to suppress the trivial self match. Against the complemented
+	// query there is no trivial match and the filter has already kept only
+	// one side of the antidiagonal, so nothing more must be discarded.
+	merger := filter.NewMerger(p.index, working, p.FilterParams, p.MaxIGap, p.selfCompare && !complement)
 	var h filter.Hit
 	for {
 		if err = p.morass.Pull(&h); err != nil {
